@@ -217,8 +217,7 @@ def run_shard(ctx):
         nt = stat['match'] > 0 and stat['lendiff'] > 0
         cl = ['direct'] + [k for k in ('match', 'longer', 'across-newline') if stat[k]]
         ctx.stats.case(key=(txt, pos, [r[:2] for r in rules]), nontrivial=nt, classes=cl,
-                       sample={'text': txt, 'pos': pos, 'lines': [mkline(r) for r in rules]}
-                       if nt and ctx.stats.evaluations % 200 == 0 else None)
+                       sample={'text': txt, 'pos': pos, 'lines': [mkline(r) for r in rules]})
 
     hyp_run(ctx, direct_case(), direct, ctx.n(60000, 1000000))
 
@@ -230,8 +229,7 @@ def run_shard(ctx):
         nt = stat['match'] > 0 and stat['lendiff'] > 0
         ctx.stats.case(key=(src, [r[:2] for r in rules], ml), nontrivial=nt,
                        classes=['tex2txt-ml' if ml else 'tex2txt-single'] + (['match'] if stat['match'] else []),
-                       sample={'src': src, 'lines': [mkline(r) for r in rules], 'ml': ml}
-                       if nt and ctx.stats.evaluations % 100 == 0 else None, n=2)
+                       sample={'src': src, 'lines': [mkline(r) for r in rules], 'ml': ml}, n=2)
 
     hyp_run(ctx, st.tuples(doc_s, st.lists(rule_doc, min_size=1, max_size=3), st.booleans()), integ,
             ctx.n(6000, 100000), seed=ctx.shard_seed + 500)
